@@ -218,6 +218,48 @@ def random_spec(rng: random.Random, n: int, *, alphabet=ALPHABET, typed=False, k
     return Spec(tuple((pv[i], labs[i], None, (rng.choice(kinds) if typed else None)) for i in range(n)), typed=typed)
 
 
+def big_spec(rng: random.Random, n: int, shape: str = "wide", *, typed=False, kinds=KINDS, clone_rate=0.15) -> Spec:
+    """A larger tree (tens of nodes) for code paths that depend on size: shape 'wide' makes long sibling
+    runs (a node mostly becomes the next sibling of its predecessor), 'deep' long chains (mostly the child
+    of its predecessor), 'mixed' picks uniformly on the rightmost path.  Labels n<i> are distinct except
+    for a share `clone_rate` that repeats an earlier label where the sibling rule allows it."""
+    pv: list[int] = []
+    for i in range(n):
+        path = [-1]
+        if i > 0:
+            p = i - 1
+            while p != -1:
+                path.append(p)  # predecessor, its parent, ... (deepest first after -1)
+                p = pv[p]
+        r = rng.random()
+        if i == 0:
+            pv.append(-1)
+        elif shape == "wide" and r < 0.8:
+            pv.append(pv[i - 1])
+        elif shape == "deep" and r < 0.8:
+            pv.append(i - 1)
+        else:
+            pv.append(rng.choice(path))
+    labs: list[str] = []
+    for i in range(n):
+        lab = f"n{i}"
+        if i and rng.random() < clone_rate:
+            cand = rng.choice(labs)
+            if all(labs[j] != cand for j in range(i) if pv[j] == pv[i]):
+                lab = cand
+        labs.append(lab)
+    return Spec(tuple((pv[i], labs[i], None, (rng.choice(kinds) if typed else None)) for i in range(n)), typed=typed)
+
+
+def big_specs(seed_: int, count: int, *, lo=18, hi=60, typed=False) -> list:
+    """`count` seeded larger trees, shapes in rotation."""
+    out = []
+    for j in range(count):
+        rng = random.Random(seed_ * 7919 + j)
+        out.append(big_spec(rng, rng.randint(lo, hi), ("wide", "deep", "mixed")[j % 3], typed=typed))
+    return out
+
+
 # ---------------------------------------------------------------- data flavours (C02)
 @dataclass(frozen=True)
 class Item:  # frozen dataclass flavour: hashable, equality by value
